@@ -82,6 +82,7 @@ def part_lt(it, x, y, last):
             raise Unsupported('storage order of symbolic strings')
         a, b = x.s.encode(), y.s.encode()
         return a < b if last else (len(a), a) < (len(b), b)
+    if isinstance(x, Agg) and x.name == 'bytes_of_u64': return x.fields[0] < y.fields[0]      # big-endian bytes order = numeric order
     if isinstance(x, (VecV, Agg)):
         a = [v for v in seq(x)]; b = [v for v in seq(y)]
         if any(is_sym(v) for v in a + b): raise Unsupported('storage order of symbolic bytes')
@@ -372,6 +373,19 @@ def _parse_reply_inst(it, a, c):
     p = data.fields[0].fields[0]
     if isinstance(p, Opaque) and p.tag == 'instantiate_data':
         return OK(Agg('cw_utils::MsgInstantiateContractResponse', [p.payload, NONE()]))
+    return ERR(Enum('cw_utils::ParseReplyError', 'ParseFailure', [Str('bad reply data')]))
+
+
+@model('cw_utils::parse_reply_execute_data', 'cw_utils::parse_execute_response_data')
+def _parse_reply_exec(it, a, c):
+    rep = a[0]; res = rep.fields[1]
+    if res.variant == 'Err': return ERR(Enum('cw_utils::ParseReplyError', 'SubMsgFailure', [res.fields[0]]))
+    data = res.fields[0].fields[1]
+    if data.variant == 'None': return ERR(Enum('cw_utils::ParseReplyError', 'ParseFailure', [Str('Missing reply data')]))
+    p = data.fields[0].fields[0]
+    if isinstance(p, Opaque) and p.tag == 'exec_data':
+        inner = SOME(Agg(CS + 'Binary', [Opaque('json', p.payload)])) if p.payload is not None else NONE()
+        return OK(Agg('cw_utils::MsgExecuteContractResponse', [inner]))
     return ERR(Enum('cw_utils::ParseReplyError', 'ParseFailure', [Str('bad reply data')]))
 
 
